@@ -131,7 +131,8 @@ template <int KA, int KB, size_t BND, bool NEIGHBOUR> static void cross_h()
 
 // ---------------------------------------------------------------------------------------------- C08
 // every proper prefix is rejected with an exception (never a field, abort, crash, hang, uninitialised decision)
-template <int K, size_t BND> static void trunc_h()
+// EXC: the caller has enabled stream exceptions (failbit | badbit): the failing read itself throws ios_base::failure
+template <int K, size_t BND, bool EXC = false> static void trunc_h()
 {
     using B = typename stack<K>::type;
     field<B> f = make<B>(BND);
@@ -140,6 +141,7 @@ template <int K, size_t BND> static void trunc_h()
     size_t t = vf_nondet_u64();
     vf_assume(t < vf_stream_len(os));
     std::istream * is = vf_istream_from(os, t, VF_NEVER);
+    if constexpr (EXC) is->exceptions(std::ios_base::failbit | std::ios_base::badbit);
     bool threw = false;
     size_t live0 = vf_heap_live();
     try {
@@ -206,7 +208,7 @@ template <int KA, int KB, size_t BND> static void pair_h()
 }
 
 // the stream starts failing at the n-th read, for every n below the number of reads a clean load performs
-template <int K, size_t BND> static void failat_h()
+template <int K, size_t BND, bool EXC = false> static void failat_h()
 {
     using B = typename stack<K>::type;
     field<B> f = make<B>(BND);
@@ -221,6 +223,7 @@ template <int K, size_t BND> static void failat_h()
     size_t n = vf_nondet_u64();
     vf_assume(n < reads);
     std::istream * is = vf_istream_from(os, vf_stream_len(os), n);
+    if constexpr (EXC) is->exceptions(std::ios_base::failbit | std::ios_base::badbit);
     bool threw = false;
     size_t live0 = vf_heap_live();
     try {
